@@ -232,7 +232,7 @@ def model_numbers(case):
 def oracle(case):
     s3 = load_case(case)
     if case["kind"] == "multimodel":
-        models = tuple(model_numbers(case))
+        models = tuple(int(str(m)) for m in model_numbers(case))  # equal numbers, not the very objects the residues carry
     else:
         models = (None,)
     ds, info = evaluate(s3, models, merge=bool(case.get("split")))
@@ -296,7 +296,7 @@ def st_multimodel(files):
                                 "shift": st.one_of(st.just([0.0, 0.0, 0.0]), st.lists(st.floats(-3, 3), min_size=3, max_size=3))})
     return st.fixed_dictionaries({"kind": st.just("multimodel"), "file": st.sampled_from(files),
                                   "models": st.lists(mv, min_size=1, max_size=2), "interleave": st.booleans(),
-                                  "model_numbers": st.sampled_from([None, None, [0, 1, 2], [2, 5, 7], [3, 1, 2]])})
+                                  "model_numbers": st.sampled_from([None, None, [0, 1, 2], [2, 5, 7], [3, 1, 2], [300, 301, 302], [998, 1065, 2000]])})
 
 
 def plan(tier, seed):
